@@ -185,6 +185,17 @@ def rule_c(ctx, cr):
                 okd = True
     ctx.check(okd, "C12.c", "execute_loop/Clear-dispatch", lp.span,
               "Opcode::Clear runs Runtime::clear")
+    from rules import c01
+    try:
+        sk, _n = c01.skipped_handlers(cr, only={"Clear"})
+    except c01.MissingAnchorLike as e:
+        ctx.missing("C12.c", str(e))
+        sk = []
+    ctx.check(not sk, "C12.c", "execute_loop/Clear-unconditional", lp.span,
+              "Runtime::clear runs on every path through the Clear arm",
+              "Opcode::Clear reaches the next instruction without calling Runtime::clear on some "
+              "path: RUN and CLEAR then keep variables, arrays, DEFtype settings, the DATA "
+              "position and pending frames")
     sl = cr.need_fn("mach::runtime::Runtime::set_listing")
     ctx.touch(sl)
     nw = sl.calls_to("mach::runtime::Runtime::new_")
